@@ -9,9 +9,16 @@ import (
 	"github.com/titpetric/vuego/internal/parser"
 )
 
+// maxIncludeDepth bounds the length of the template inclusion chain.
+const maxIncludeDepth = 100
+
 // evalInclude processes a <template include="..."> tag with the given vars map.
 // Handles stack push/pop properly using defer to ensure cleanup even on error.
 func (v *Vue) evalInclude(ctx VueContext, node *html.Node, vars map[string]any, depth int) ([]*html.Node, error) {
+	if len(ctx.TemplateStack) > maxIncludeDepth {
+		return nil, fmt.Errorf("include depth exceeded maximum of %d, possible circular include: %s", maxIncludeDepth, ctx.FormatTemplateChain())
+	}
+
 	// Slot content supplied by this include tag belongs to this component
 	// instance only and is evaluated later in the includer's scope.
 	includerScope, includerDepth := ctx.SlotScope, len(ctx.stack.stack)
